@@ -961,7 +961,8 @@ func drawC19(t *rapid.T) *Case {
 			frames = append(frames, f)
 		}
 		raw := rapid.SliceOfN(rapid.Byte(), 0, 40).Draw(t, "rawtail")
-		limit := uint32([]int{16384, 16, 1 << 20}[rapid.IntRange(0, 2).Draw(t, "limit")])
+		// (read limits at the ends of the range too: 0 lets only empty frames through)
+		limit := uint32([]int{16384, 16, 1 << 20, 0, 5, 1<<24 - 1}[rapid.IntRange(0, 5).Draw(t, "limit")])
 		c := &Case{}
 		var descs []string
 		for _, f := range frames {
